@@ -48,6 +48,10 @@ package isaacstates
 //@   requires forall(k, 0 <= k && k < len(box.removed.value) ==> box.removed.value[k] != nil)
 //@   requires forall(string(k), mhas(box.vrs, k) ==> mval(box.vrs, k, *voterecords) != nil)
 //@   callsite RemoveValue requires a0 == vrkey(vr.sp, vr.isc)
+// only records of stage points the box has passed are scheduled for release
+// (a record of the current stage point, suffrage confirm or not, stays)
+//@   callsite RemoveValue requires vr.sp.Compare(last.StagePoint) < 0
+//@   hof Traverse#0 loop invariant forall(k, 0 <= k && k < len(removed) ==> removed[k].sp.Compare(last.StagePoint) < 0)
 //@   hof Traverse#0 loop invariant forall(k, 0 <= k && k < len(removed) ==> removed[k] != nil)
 // released exactly once: records are stored under their own key (I1), a record
 // waiting for release is no longer stored (I2); after clean the waiting list
@@ -66,6 +70,7 @@ package isaacstates
 //@   loop 0 invariant forall(string(k), mhas((*box).vrs, k) ==> mval((*box).vrs, k, *voterecords) != nil && k == vrkey(mval((*box).vrs, k, *voterecords).sp, mval((*box).vrs, k, *voterecords).isc))
 //@   loop 0 invariant forall(q, string(k), 0 <= q && q < len(removed) && mhas((*box).vrs, k) ==> mval((*box).vrs, k, *voterecords) != removed[q])
 //@   loop 0 invariant forall(q, 0 <= q && q < len(removed) ==> removed[q] != nil)
+//@   loop 1 invariant forall(q, 0 <= q && q < len(removed) ==> removed[q].sp.Compare(last.StagePoint) < 0)
 //@   loop 1 invariant forall(q, 0 <= q && q < len(removed) ==> removed[q] != nil && pre(mhas((*box).vrs, vrkey(removed[q].sp, removed[q].isc))) && pre(mval((*box).vrs, vrkey(removed[q].sp, removed[q].isc), *voterecords)) == removed[q])
 
 // ---- C08: the local node never equivocates (choke point) ---------------------------
